@@ -687,6 +687,11 @@ let run (cmd : string) (args : string list) : string =
           let dist m = let p' = freeze (Rules.apply p m) in
             let rec go k = if k > maxn - 1 then 0 else if spec_loss p' k then k + 1 else go (k + 1) in go 0 in
           Printf.sprintf "%d %s" n (String.concat ";" (L.map (fun m -> spec_move_str m ^ "=" ^ spec_fen (Rules.apply p m) ^ "@" ^ string_of_int (dist m)) keep))))
+  | "specwin", [fen; maxn] ->
+    (* is there a forced mate for the side to move within maxn plies? (memoised solver; no move list) *)
+    (match spec_pos fen with
+     | None -> "badfen"
+     | Some p -> if spec_win (freeze p) (int_of_string maxn) then "win" else "none")
   | "gvwin", [fen; n] ->
     (* the extracted GameValue.win (no memoisation) next to the memoised solver of this driver: they must agree *)
     (match spec_pos fen with
